@@ -27,8 +27,9 @@ def _load(prop):
 
 
 def _subcheck(module, name):
+    base = name.split("@")[0]
     for sc in module.SUBCHECKS:
-        if sc.name == name:
+        if sc.name == base:
             return sc
     raise HarnessError("unknown sub-check %s" % name)
 
@@ -44,7 +45,7 @@ def _fail_record(sc, case, f):
             "expected": jsonable(f.expected), "observed": jsonable(f.observed), "history": None}
 
 
-def _run_hypothesis(sc, n, seed, matchers, shrink=True):
+def _run_hypothesis(sc, n, seed, matchers, shrink=True, fresh_k=None):
     import hypothesis
     from hypothesis import given, settings, HealthCheck, Phase
     import collections
@@ -53,6 +54,12 @@ def _run_hypothesis(sc, n, seed, matchers, shrink=True):
     recent = collections.deque(maxlen=40)
 
     def body(case):
+        if fresh_k is not None and sc.fresh_first is not None and stats.evaluations == 0 and stats.discarded == 0:
+            # the very first library call of this (pristine) process: biased towards unusual argument representations
+            if isinstance(case, dict) and "seq" in case:
+                case = {"seq": [sc.fresh_first(case["seq"][0], fresh_k)] + list(case["seq"][1:])}
+            else:
+                case = sc.fresh_first(case, fresh_k)
         if matchers and isinstance(case, dict) and "seq" in case:
             # a call sequence: only the calls that fall under a known finding are left out, the rest of the sequence runs
             kept = [c for c in case["seq"] if not any(m(c) for m in matchers)]
@@ -183,7 +190,7 @@ def _worker(task):
                 elif sc.enumerate is not None:
                     stats, failures, harness = _run_enumeration(sc, tier, seed, shard, nshards, matchers)
                 else:
-                    stats, failures, harness = _run_hypothesis(sc, n, seed, matchers)
+                    stats, failures, harness = _run_hypothesis(sc, n, seed, matchers, fresh_k=(shard if "@" in name else None))
             finally:
                 os.chdir(cwd)
         return {"subcheck": name, "shard": shard, "stats": stats.as_dict(), "failures": failures,
@@ -255,17 +262,13 @@ def replay(prop, path):
     return 0
 
 
-def run(prop, tier, seed):
-    t0 = time.time()
+def _replay_phase(args):
+    """Known findings and the committed corpus, run in a child process of their own: the process that forks the exploration
+    workers never calls the library, so every worker starts from a pristine interpreter state (no call history at all)."""
+    prop, only = args
     module = _load(prop)
     if hasattr(module, "selftest"):
-        module.selftest()
-    subchecks = list(module.SUBCHECKS)
-    only = os.environ.get("VERIF_ONLY")
-    if only:
-        subchecks = [s for s in subchecks if s.name in only.split(",")]
-    scale = float(os.environ.get("VERIF_SCALE", "1"))
-
+        module.selftest()          # oracle self-tests (a mismatch is a harness error, exit 2)
     violations = []          # (replay path, record)
     known_lines = []
     active_by_sub = {}
@@ -328,6 +331,22 @@ def run(prop, tier, seed):
             r["from_corpus"] = os.path.relpath(path, HERE)
             violations.append((os.path.relpath(path, HERE), r))
 
+    return violations, known_lines, active_by_sub, corpus_n
+
+
+def run(prop, tier, seed):
+    t0 = time.time()
+    module = _load(prop)
+    subchecks = list(module.SUBCHECKS)
+    only = os.environ.get("VERIF_ONLY")
+    if only:
+        subchecks = [s for s in subchecks if s.name in only.split(",")]
+    scale = float(os.environ.get("VERIF_SCALE", "1"))
+
+    ctx0 = multiprocessing.get_context("fork")
+    with ctx0.Pool(1, maxtasksperchild=1) as pool0:
+        violations, known_lines, active_by_sub, corpus_n = pool0.apply(_replay_phase, ((prop, only),))
+
     # 3. generated / enumerated exploration
     tasks = []
     for sc in subchecks:
@@ -339,6 +358,16 @@ def run(prop, tier, seed):
             # the sub-check's name salts the seed: sub-checks that share a strategy must not draw the same cases
             salt = zlib.crc32(sc.name.encode()) % 1000003
             tasks.append((prop, sc.name, tier, per, (seed * 1000 + k) * 1000003 + salt, k, nsh, active_by_sub.get(sc.name, [])))
+        fr = getattr(sc, "fresh", None)
+        if fr and sc.strategy is not None:
+            # additional tiny tasks, each in a process of its own that has made no library call yet: results that depend on what
+            # the FIRST call of a process was (lazily initialised module state) are only visible this way
+            nfr, per_fr = (fr[0], fr[2]) if tier == "quick" else (fr[1], fr[2])
+            nfr = max(1, int(nfr * scale))
+            salt = zlib.crc32((sc.name + "@fresh").encode()) % 1000003
+            for k in range(nfr):
+                tasks.append((prop, sc.name + "@fresh", tier, per_fr, (seed * 1000 + k) * 1000003 + salt, k, nfr,
+                              active_by_sub.get(sc.name, [])))
     nproc = int(os.environ.get("VERIF_JOBS", "16"))
     nproc = max(1, min(nproc, len(tasks)))
     ctx = multiprocessing.get_context("fork")
@@ -402,13 +431,15 @@ def run(prop, tier, seed):
     samples = []
     subs = {}
     for name, d in per_sub.items():
-        sc = sc_by_name[name]
+        sc = sc_by_name[name.split("@")[0]]
         for smp in d["samples"][:4]:
             samples.append({"subcheck": name, "case": smp})
-        subs[name] = {"evaluations": d["evaluations"], "distinct_nontrivial": len(d["nontrivial"]), "rule": sc.rule,
+        subs[name] = {"evaluations": d["evaluations"], "distinct_nontrivial": len(d["nontrivial"]),
+                      "rule": sc.rule + (" | @fresh: the same relation in processes that have made no library call before their first case "
+                                         "(one short call sequence per process)" if "@" in name else ""),
                       "classes": dict(sorted(d["classes"].items())), "discarded_outside_domain": d["discarded"],
                       "excluded_known": d["excluded_known"],
-                      "exhaustive": bool(sc.exhaustive and (tier == "thorough" or sc.exhaustive == "both")),
+                      "exhaustive": bool("@" not in name and sc.exhaustive and (tier == "thorough" or sc.exhaustive == "both")),
                       "worst": {k: float("%.4g" % v) for k, v in sorted(d["metrics"].items())},
                       "wall_s": round(d["wall"], 2)}
     all_exh = bool(subs) and all(v["exhaustive"] for v in subs.values())
